@@ -843,7 +843,14 @@ def check_stepplan(ctx: core.Ctx, plan: StepPlan, file: str, func: str, tag: str
     loops = [p for p in plan.predicts if p.in_loop is not None]
     rems = [p for p in plan.predicts if p.in_loop is None]
     if len(loops) != 1 or len(rems) != 1:
-        ctx.error(f"{where}: expected one PREDICT in the k-loop and one remainder PREDICT, found {len(loops)} / {len(rems)}")
+        if not plan.problems and len(loops) <= 1 and len(rems) <= 1:
+            # every statement of the step function was understood, and a step of the plan is simply not issued
+            missing = ("the k full steps" if not loops else "") + (" and " if not loops and not rems else "") + ("the remainder step" if not rems else "")
+            ctx.oblige("TEMPLATE", where, f"{len(loops)} loop step(s), {len(rems)} remainder step(s)", False, file=file, func=func,
+                       construct=f"missing steps {plan.scenario}",
+                       msg=f"the step function never issues {missing}: the estimate is reported for the target time without having been moved there")
+        else:
+            ctx.error(f"{where}: expected one PREDICT in the k-loop and one remainder PREDICT, found {len(loops)} / {len(rems)}")
         return
     lp, rp = loops[0], rems[0]
     want = {"fwd": "+", "bwd": "-"}[plan.scenario]
